@@ -181,16 +181,18 @@ def check(ctx) -> None:
         [((0, 7), 2), ((0, 7), 2), ((7, 0), 2)],
     ]
     for pop in pops:
-        for coin in (True, False):
+        for coin, popsize in itertools.product((True, False), (1, 50)):
             inds = [make_ind(v, f"i{i}{v}", length=l) for i, (v, l) in enumerate(pop)]
-            it = peval.Interp(resolver=resolver, externs={"OrderedSet": lambda x=(): _OSet(x), "PreferenceSortingComparator": pref_ctor, "randomness.next_bool": lambda coin=coin: coin})
+            # the configured population size must not matter: every goal keeps its best individual in the zero front
+            it = peval.Interp(resolver=resolver, externs={"OrderedSet": lambda x=(): _OSet(x), "PreferenceSortingComparator": pref_ctor, "randomness.next_bool": lambda coin=coin: coin},
+                              consts={"config.configuration.search_algorithm.population": popsize})
             try:
                 front = it.run_function(zf, [inds, list(GOALS)], {}, rmod)
             except peval.Undecided as exc:
                 ctx.undecide("C14.zero-front", zf, f"{pop}: {exc}")
                 continue
             except peval.Raises as exc:
-                ctx.fail("C14.zero-front", zf, f"population {pop}: raises {exc.name} {exc.detail}", stmt=f"[partition] {pop} coin={coin}")
+                ctx.fail("C14.zero-front", zf, f"population {pop}: raises {exc.name} {exc.detail}", stmt=f"[partition] {pop} coin={coin} size={popsize}")
                 continue
             ok = True
             why = ""
@@ -201,7 +203,7 @@ def check(ctx) -> None:
                     ok, why = False, f"goal {g}: no member with the minimal fitness {best} and minimal length {best_len}"
             if any(f.fields["rank"] != 0 for f in front):
                 ok, why = False, "a zero-front member has rank != 0"
-            ctx.check("C14.zero-front", zf, ok, f"population {pop} (tie coin {coin}): {why}", what=f"{pop} coin={coin}: best per goal in the zero front", stmt=f"[partition] {pop} coin={coin}")
+            ctx.check("C14.zero-front", zf, ok, f"population {pop} (tie coin {coin}, configured population size {popsize}): {why}", what=f"{pop} coin={coin} size={popsize}: best per goal in the zero front", stmt=f"[partition] {pop} coin={coin} size={popsize}")
 
     # ------------------------------------------------------------------ C14.distance
     fed = repo.func(RK, "fast_epsilon_dominance_assignment")
